@@ -243,7 +243,8 @@ class C17(PropertyCheck):
     exhaustive_note = {
         "quick": "dispatch: every mask of every shape with H*W <= 6 through one of the three decorators "
                  "(rotating); every 1-D mask of length <= 4; decorator x grid-type x list/non-list fully crossed",
-        "thorough": "dispatch: every mask of every shape with H*W <= 9; every 1-D mask of length <= 6",
+        "thorough": "dispatch: every mask of every shape with H*W <= 8 (and a seed-dependent third of those with "
+                    "H*W = 9); every 1-D mask of length <= 6",
     }
     trusted_extra = [
         "numpy sqrt / arctan2 / sin / cos / radians (parameters `Trig` of the model; theorems carry their "
